@@ -13,35 +13,50 @@ Open Scope Z_scope.
 
 (* ------------------------------------------------------------------ case type *)
 
+(* A byte string in a case: a hex literal, or the harness's pattern bytes b[i] = seed + 3*i
+   (mod 256) of the given length (c17Msg).  The encoding is lossless: the harness prints BP only
+   for a slice that IS that pattern (it compares the bytes), whoever produced the slice; long
+   messages (above RecvBufferCapacity = 4096 and more) then cost nothing to parse. *)
+Inductive blob := BH (s : string) | BP (seed len : N).
+Fixpoint pat (cur : N) (n : nat) : bytes :=
+  match n with O => [] | S k => cur :: pat ((cur + 3) mod 256)%N k end.
+Definition unblob (b : blob) : bytes :=
+  match b with BH s => unhex s | BP seed n => pat (seed mod 256)%N (N.to_nat n) end.
+
 (* one operation of a stepped multiplex history with what the implementation answered *)
 Inductive mop :=
-| MSend (c : Z) (m : string) (ok_i : bool)                    (* Channel.trySendBytes via channelsIdx *)
-| MStep (pkt_i : option (Z * bool * string)) (exh_i : bool).  (* MConnection.sendPacketMsg: packet written, result *)
+| MSend (c : Z) (m : blob) (ok_i : bool)                    (* Channel.trySendBytes via channelsIdx *)
+| MStep (pkt_i : option (Z * bool * blob)) (exh_i : bool).  (* MConnection.sendPacketMsg: packet written, result *)
 
 (* one item written raw to the connection of a real receiving MConnection *)
 Inductive hitem :=
-| HMsg (c : Z) (eof : bool) (data : string)
+| HMsg (c : Z) (eof : bool) (data : blob)
 | HPing | HPong | HUnknown | HOversize | HGarbage.
 
 Inductive case :=
 (* sender driven step by step (real Channel/MConnection code, real scheduler), the bytes it wrote
    are then read by a real started MConnection.
    maxsz: MaxPacketMsgPayloadSize; descs: (id, SendQueueCapacity, RecvMessageCapacity);
+   bcaps: RecvBufferCapacity of each channel, in descs order (the initial cap of ch.recving: a
+   message longer than it makes append replace the buffer; part of the input, the model has no
+   use for it because no code path reads cap(ch.recving));
    drained: the history ends with sendPacketMsg steps until it reported "exhausted";
    delivered_i: onReceive journal; err_i: onError was called on the receiver *)
-| CMux (maxsz : nat) (descs : list (Z * nat * Z)) (ops : list mop) (drained : bool)
-       (delivered_i : list (Z * string)) (err_i : bool)
+| CMux (maxsz : nat) (descs : list (Z * nat * Z)) (bcaps : list Z) (ops : list mop) (drained : bool)
+       (delivered_i : list (Z * blob)) (err_i : bool)
 (* two real started MConnections over net.Pipe, one sending goroutine per channel.
    accepted: per goroutine the (channel, message) list for which Send returned true, in order;
    every channel is used by one goroutine only *)
-| CConc (maxsz : nat) (descs : list (Z * nat * Z)) (accepted : list (list (Z * string)))
-        (delivered_i : list (Z * string)) (err_i : bool)
+| CConc (maxsz : nat) (descs : list (Z * nat * Z)) (bcaps : list Z) (accepted : list (list (Z * blob)))
+        (delivered_i : list (Z * blob)) (err_i : bool)
 (* hostile raw stream into a real started MConnection. descs: (id, RecvMessageCapacity);
    bufs_i: after each item (ping/pong barrier) len(ch.recving) of every channel, in descs
-   order, until the connection errored; ndeliv_at_err_i: journal length when onError fired
+   order, until the connection errored; nils_i: at the same moments, ch.recving == nil of every
+   channel; ndeliv_at_err_i: journal length when onError fired
    (or final length when it did not); delivered_i: journal after ALL items were written *)
-| CHostile (descs : list (Z * Z)) (items : list hitem) (bufs_i : list (list Z))
-           (err_i : bool) (ndeliv_at_err_i : Z) (delivered_i : list (Z * string))
+| CHostile (descs : list (Z * Z)) (bcaps : list Z) (items : list hitem) (bufs_i : list (list Z))
+           (nils_i : list (list bool))
+           (err_i : bool) (ndeliv_at_err_i : Z) (delivered_i : list (Z * blob))
 (* one consensus message through the real decoder (proto round trip, MsgFromProto incl.
    ValidateBasic) and, when accepted, through ReceiveEnvelope's PeerState handlers on a peer
    state positioned at the message's height/round.
@@ -77,14 +92,14 @@ Fixpoint is_prefix (a b : list bytes) : bool :=
   end.
 
 Definition jr_eqb (a b : Z * bytes) : bool := (fst a =? fst b) && bytes_eqb (snd a) (snd b).
-Definition unhex_j (j : list (Z * string)) : list (Z * bytes) := map (fun e => (fst e, unhex (snd e))) j.
+Definition unhex_j (j : list (Z * blob)) : list (Z * bytes) := map (fun e => (fst e, unblob (snd e))) j.
 
 Definition packet_eqb (a b : packet) : bool :=
   (p_ch a =? p_ch b) && Bool.eqb (p_eof a) (p_eof b) && bytes_eqb (p_data a) (p_data b).
 Definition opacket_eqb (a b : option packet) : bool :=
   match a, b with Some x, Some y => packet_eqb x y | None, None => true | _, _ => false end.
-Definition mk_packet (t : Z * bool * string) : packet :=
-  let '(c, e, d) := t in {| p_ch := c; p_eof := e; p_data := unhex d |}.
+Definition mk_packet (t : Z * bool * blob) : packet :=
+  let '(c, e, d) := t in {| p_ch := c; p_eof := e; p_data := unblob d |}.
 
 Fixpoint index_of (c : Z) (ids : list Z) : nat :=
   match ids with
@@ -103,7 +118,7 @@ Fixpoint mux_run (maxsz : nat) (ids : list Z) (chs : list schan) (ops : list mop
   match ops with
   | [] => (true, true, true)
   | MSend c m ok_i :: r =>
-    let '(chs', ok) := send_to chs c (unhex m) in
+    let '(chs', ok) := send_to chs c (unblob m) in
     let '(a, b, e) := mux_run maxsz ids chs' r in (Bool.eqb ok ok_i && a, b, e)
   | MStep pkt_i exh_i :: r =>
     let k := match pkt_i with Some (c, _, _) => index_of c ids | None => O end in
@@ -113,7 +128,7 @@ Fixpoint mux_run (maxsz : nat) (ids : list Z) (chs : list schan) (ops : list mop
   end.
 
 Definition accepted_of (ops : list mop) : list (Z * bytes) :=
-  flat_map (fun o => match o with MSend c m true => [(c, unhex m)] | _ => [] end) ops.
+  flat_map (fun o => match o with MSend c m true => [(c, unblob m)] | _ => [] end) ops.
 Definition packets_of (ops : list mop) : list packet :=
   flat_map (fun o => match o with MStep (Some t) _ => [mk_packet t] | _ => [] end) ops.
 
@@ -132,7 +147,7 @@ Definition fits (descs : list (Z * nat * Z)) (acc : list (Z * bytes)) : bool :=
 
 Definition mk_item (h : hitem) : witem :=
   match h with
-  | HMsg c e d => WMsg {| p_ch := c; p_eof := e; p_data := unhex d |}
+  | HMsg c e d => WMsg {| p_ch := c; p_eof := e; p_data := unblob d |}
   | HPing => WPing | HPong => WPong | HUnknown => WUnknown
   | HOversize => WOversize | HGarbage => WGarbage
   end.
@@ -173,6 +188,16 @@ Fixpoint model_bufs (r : receiver) (items : list witem) : list (list Z) :=
     if r_stopped r' then [] else map (fun c => blen (rc_recving c)) (r_chans r') :: model_bufs r' rest
   end.
 
+(* ch.recving == nil of every channel after each item, as the model has it *)
+Fixpoint model_nils (r : receiver) (items : list witem) : list (list bool) :=
+  match items with
+  | [] => []
+  | it :: rest =>
+    let r' := recv_item r it in
+    if r_stopped r' then []
+    else map (fun c => match rc_buf c with None => true | Some _ => false end) (r_chans r') :: model_nils r' rest
+  end.
+
 (* ------------------------------------------------------------------ CValidate / CReactor *)
 
 Definition alloc_limit : Z := 64 * 1024 * 1024.     (* 64 MiB for one small input *)
@@ -184,7 +209,7 @@ Definition arrays_ok (a : list (Z * Z)) : bool :=
 
 Definition check (c : case) : verdict :=
   match c with
-  | CMux maxsz descs ops drained delivered_i err_i =>
+  | CMux maxsz descs _ ops drained delivered_i err_i =>
     let ids := map (fun d => fst (fst d)) descs in
     let acc := accepted_of ops in
     let del := unhex_j delivered_i in
@@ -200,7 +225,7 @@ Definition check (c : case) : verdict :=
       mism a 11; mism b 12; mism e 13;
       mism (list_eqb jr_eqb (r_delivered rm) del) 14;
       mism (Bool.eqb (r_stopped rm) err_i) 15 ]
-  | CConc maxsz descs accepted delivered_i err_i =>
+  | CConc maxsz descs _ accepted delivered_i err_i =>
     let ids := map (fun d => fst (fst d)) descs in
     let acc := unhex_j (concat accepted) in
     let del := unhex_j delivered_i in
@@ -214,7 +239,7 @@ Definition check (c : case) : verdict :=
       viol (negb (fits descs acc) || negb err_i) 3;
       mism (forallb (fun c => list_eqb bytes_eqb (on_chan c (r_delivered (s_recv fin))) (on_chan c del)) ids) 16;
       mism (Bool.eqb (r_stopped (s_recv fin)) err_i) 15 ]
-  | CHostile descs items bufs_i err_i nd_i delivered_i =>
+  | CHostile descs _ items bufs_i nils_i err_i nd_i delivered_i =>
     let its := map mk_item items in
     let del := unhex_j delivered_i in
     let rm := recv_items (new_receiver descs) its in
@@ -227,7 +252,8 @@ Definition check (c : case) : verdict :=
       viol (negb err_i || (nd_i =? Z.of_nat (List.length delivered_i))) 7;
       mism (list_eqb jr_eqb (r_delivered rm) del) 14;
       mism (Bool.eqb (r_stopped rm) err_i) 15;
-      mism (list_eqb (list_eqb Z.eqb) (model_bufs (new_receiver descs) its) bufs_i) 18 ]
+      mism (list_eqb (list_eqb Z.eqb) (model_bufs (new_receiver descs) its) bufs_i) 18;
+      mism (list_eqb (list_eqb Bool.eqb) (model_nils (new_receiver descs) its) nils_i) 17 ]
   | CValidate m ok_i arrays_i panic_i alloc_i =>
     first_of [
       (* validated message => handlers stay in bounds *)
